@@ -11,6 +11,10 @@ CLAIMED = {
    text='Unbounded Coq theorems for ortho_left/ortho_right/ortho as factorise-and-push sweeps over an SVD oracle: value preservation (any start/end), isometry of processed cores, no rank increase, frame, consistency; tied to /repo by oracle-tape differential execution (the model must hand the SVD the same matrices and return the same cores/ranks for arbitrary and for exact answers), plus a float side check (value, Gram matrices, ranks, frame).',
    note='Trusted: Coq kernel + vm_compute; harness incl. the scipy.linalg.svd patching layer; LAPACK is assumed to meet the svd_spec conjuncts each theorem names (value / orthonormal kept columns / thin); rounding and the gesvd retry path not modelled.',
    technique='Coq proof by induction over the sweep with SVD as oracle hypothesis + oracle-tape correspondence', design='6 C03'),
+ 'C02': dict(
+   text='Coq theorems (unbounded order/dims/ranks): the rank-rank matrix accumulated by tensordot equals the sum over all contracted row/column indices of the product of the two chains (all modes); full value theorem for mode last-first (partial and complete); rank_transpose, concatenate, rank_tensordot, diag, core merging (qtt2tt) and split-then-merge identity (tt2qtt, SVD value conjunct). All 12 tensordot branches, squeeze, tt2qtt, build_core are modelled and tied to /repo by exact differential execution (SVD tape for tt2qtt); float side check against numpy.tensordot/reshape.',
+   note='PARTIAL: composed value statements for modes last-last/first-last/first-first, squeeze and build_core are covered by model+correspondence+side check, not by a theorem. Trusted: Coq kernel, harness, NumPy as dense oracle, SVD value conjunct.',
+   technique='Coq proof (index-sum algebra over chains) + exact model-vs-code correspondence', design='6 C02'),
 }
 NOT_YET = {}
 ALL = ['C%02d' % i for i in range(1, 21)]
